@@ -738,6 +738,37 @@ func (b *BlueprintLookupHint[E]) clearCache(capacity int) {
 }
 ''')])
 save('benign-resetdef-helper','C06','constraint/blueprint_logderivlookup.go','Reset delegates the two assignments to a helper method')
+edit('std/algebra/emulated/sw_bw6761/pairing.go',[('''	lines := make([]lineEvaluations, len(Q))
+	for i := range Q {
+		if Q[i].Lines == nil {
+			Qlines := pr.computeLines(&Q[i].P)
+			Q[i].Lines = &Qlines
+		}
+		lines[i] = *Q[i].Lines
+	}
+	return pr.millerLoopLines(P, lines, nil, true)
+''','''	lines := make([]lineEvaluations, len(Q))
+	for i := range Q {
+		if Q[i].Lines == nil {
+			// keep the computed lines local: Q[i] may belong to the caller's circuit value
+			lines[i] = pr.computeLines(&Q[i].P)
+			continue
+		}
+		lines[i] = *Q[i].Lines
+	}
+	return pr.millerLoopLines(P, lines, nil, true)
+''')])
+save('benign-operandstate-repair','C11','std/algebra/emulated/sw_bw6761/pairing.go','the repair of F14 at one site (lines kept local): its finding disappears and nothing else fires')
+m('operandstate-mux','C11',['OPERAND-STATE'],'std/algebra/emulated/sw_bn254/pairing.go','''	if inputs[0].Lines == nil {
+		return &ret
+	}
+''','''	if inputs[0].Lines == nil {
+		// compute the lines of the first input once, they are needed by most callers
+		l0 := pr.computeLines(&inputs[0].P)
+		inputs[0].Lines = &l0
+		return &ret
+	}
+''',note='a new cache of computed lines on a caller-owned operand (not among the known findings)')
 json.dump({'comment':'selftest mutants: each patch breaks one rule instance and must be detected by the listed rule(s) of its property; produced by tools/make_selftest.py','mutants':M}, open(os.path.join(root,'selftest','mutants.json'),'w'), indent=1)
 subprocess.run(['git','-C','/repo','worktree','remove','--force',WT],capture_output=True)
 print(len(M),'mutants')
